@@ -34,7 +34,7 @@ func (r *Rand) Intn(n int) int {
 	}
 	return int(r.U64() % uint64(n))
 }
-func (r *Rand) Bool() bool          { return r.U64()&1 == 1 }
+func (r *Rand) Bool() bool           { return r.U64()&1 == 1 }
 func (r *Rand) Chance(p, q int) bool { return r.Intn(q) < p }
 func (r *Rand) Bytes(n int) []byte {
 	b := make([]byte, n)
@@ -43,7 +43,7 @@ func (r *Rand) Bytes(n int) []byte {
 	}
 	return b
 }
-func (r *Rand) Fork() *Rand { return NewRand(r.U64()) }
+func (r *Rand) Fork() *Rand         { return NewRand(r.U64()) }
 func Pick[T any](r *Rand, xs []T) T { return xs[r.Intn(len(xs))] }
 
 // ---------- cases ----------
@@ -70,14 +70,16 @@ type Case struct {
 }
 
 type Failure struct {
-	Kind   string `json:"kind"` // "oracle" | "correspondence"
-	Op     string `json:"op"`
-	Impl   string `json:"impl"`
-	Model  string `json:"model,omitempty"`
-	Spec   string `json:"spec,omitempty"`
-	Reason string `json:"reason,omitempty"`
-	Class  string `json:"class,omitempty"`
-	Detail any    `json:"detail,omitempty"`
+	Kind   string   `json:"kind"` // "oracle" | "correspondence"
+	Op     string   `json:"op"`
+	Impl   string   `json:"impl"`
+	Model  string   `json:"model,omitempty"`
+	Spec   string   `json:"spec,omitempty"`
+	Reason string   `json:"reason,omitempty"`
+	Class  string   `json:"class,omitempty"`
+	Detail any      `json:"detail,omitempty"`
+	Key    string   `json:"case,omitempty"`
+	Tags   []string `json:"tags,omitempty"`
 }
 
 type Finding struct {
@@ -276,7 +278,7 @@ func Evaluate(e *Env, findings []Finding) (*Report, error) {
 				bad = model != c.Impl
 			}
 			if bad {
-				rep.KFail = append(rep.KFail, Failure{Kind: "correspondence", Op: c.Op, Impl: c.Impl, Model: model, Class: c.Class, Detail: c.Detail})
+				rep.KFail = append(rep.KFail, Failure{Kind: "correspondence", Op: c.Op, Impl: c.Impl, Model: model, Class: c.Class, Detail: c.Detail, Key: c.Key, Tags: c.Tags})
 			}
 		}
 		// oracle
@@ -304,7 +306,7 @@ func Evaluate(e *Env, findings []Finding) (*Report, error) {
 			if c.Class != "" && open[c.Class] {
 				rep.KnownHits[c.Class]++
 			} else {
-				rep.OFail = append(rep.OFail, Failure{Kind: "oracle", Op: c.Op, Impl: c.Impl, Model: model, Spec: c.Spec, Reason: reason, Class: c.Class, Detail: c.Detail})
+				rep.OFail = append(rep.OFail, Failure{Kind: "oracle", Op: c.Op, Impl: c.Impl, Model: model, Spec: c.Spec, Reason: reason, Class: c.Class, Detail: c.Detail, Key: c.Key, Tags: c.Tags})
 			}
 		}
 		if len(rep.Samples) < 6 && (i%max(1, len(e.cases)/6) == 0) {
